@@ -75,6 +75,12 @@ func validFor(w *world, c cred) string {
 		if i := strings.IndexByte(c.tokenStr, ':'); i >= 0 {
 			return check(c.tokenStr[:i], c.tokenStr[i+1:])
 		}
+	case "jwt":
+		t := c.jt
+		if w.secret != "" && (t.alg == 'a' || t.alg == 'b' || t.alg == 'c') && t.key == 's' && t.exp == 'f' && t.nbf != 'f' &&
+			t.user.kind == "n" && t.user.name != "" && w.user(t.user.name) != nil {
+			return t.user.name
+		}
 	case "bearer":
 		if w.secret != "" && c.tok.parses && c.tok.expOk && c.tok.user.kind == "n" && c.tok.user.name != "" && w.user(c.tok.user.name) != nil {
 			return c.tok.user.name
